@@ -7,6 +7,7 @@
 From Coq Require Import NArith Bool List QArith.
 From Flocq Require IEEE754.BinarySingleNaN.
 From TV Require Import Num.Num Num.QNum Num.F32 Gen.CacheGen Model.Cache Proofs.CacheProofs Proofs.CacheF32.
+From TV Require Import Gen.CacheBodyGen Proofs.CacheBodyProofs.
 From TV Require Model.Engine Model.EngineReal Proofs.EngineReal.
 Import ListNotations.
 
@@ -72,6 +73,43 @@ Section AnyNum.
   Theorem C02_hidden_never_cached : forall (c : cache T) k o,
     store c k PerformHiddenLayout o = c /\ get c k PerformHiddenLayout = None.
   Proof. exact hidden_never_cached. Qed.
+  (* ---- the TRANSLATED cache.  Gen/CacheBodyGen.v is regenerated on every run from the BODIES of Cache::new / get / store /
+     clear / is_empty (src/tree/cache.rs) and AvailableSpace::is_roughly_equal (src/style/available_space.rs), statement by
+     statement (translator/gen_cachebody.py; it refuses unknown forms).  The translated functions are extensionally the
+     hand-written model the theorems above are about -- so those theorems are about the code as translated, and a change of
+     a Rust body that changes its translation breaks these proofs. *)
+  Theorem C02_translated_is_roughly_equal_is_model : forall a b : avail T, gen_is_roughly_equal a b = is_roughly_equal a b.
+  Proof. exact gen_is_roughly_equal_eq. Qed.
+
+  Theorem C02_translated_get_is_model : forall (c : cache T) k m, gen_get c k m = get c k m.
+  Proof. exact gen_get_eq. Qed.
+
+  Theorem C02_translated_store_is_model : forall (c : cache T) k m o, gen_store c k m o = store c k m o.
+  Proof. exact gen_store_eq. Qed.
+
+  Theorem C02_translated_clear_is_model : forall c : cache T, gen_clear c = clear c.
+  Proof. exact gen_clear_eq. Qed.
+
+  Theorem C02_translated_new_is_empty_is_model : gen_new = (new : cache T) /\ forall c : cache T, gen_is_empty c = is_empty c.
+  Proof. split; [exact gen_new_eq | exact gen_is_empty_eq]. Qed.
+
+  (* C02_get_sound restated about the translated functions only: `gen_run ops` folds gen_store / gen_clear from gen_new, the
+     lookup is gen_get, and the compatibility condition is the translated boolean expression of Cache::get itself *)
+  Theorem C02_translated_get_sound : forall (ops : list (op T)) k m o, gen_get (gen_run ops) k m = Some o ->
+    m <> PerformHiddenLayout /\
+    exists ek so, stored_live ops ek m so /\
+      ((opt_eqb (kd_w k) (kd_w ek) || opt_eqb (kd_w k) (Some (width (o_size so))))
+       && (opt_eqb (kd_h k) (kd_h ek) || opt_eqb (kd_h k) (Some (height (o_size so))))
+       && (is_some (kd_w k) || gen_is_roughly_equal (av_w ek) (av_w k))
+       && (is_some (kd_h k) || gen_is_roughly_equal (av_h ek) (av_h k)))%bool = true /\
+      o = out_of m so.
+  Proof. exact gen_get_sound. Qed.
+
+  (* ... and C02_clear: after the translated clear() every translated lookup misses and the translated is_empty() holds *)
+  Theorem C02_translated_clear : forall ops : list (op T),
+    (forall k m, gen_get (fst (gen_clear (gen_run ops))) k m = None) /\
+    gen_is_empty (fst (gen_clear (gen_run ops))) = true.
+  Proof. exact gen_clear_spec. Qed.
 End AnyNum.
 
 (* `self_compat` holds when the known dimensions are not NaN and, on every axis without known dimension, a definite
@@ -123,6 +161,20 @@ Example C02_example_history :
   get (run (firstn 2 ops)) k_wmax PerformLayout = None /\
   is_empty (run (firstn 2 ops)) = false /\
   get (run ops) k_wmin ComputeSize = None /\ is_empty (run ops) = true.
+Proof. vm_compute. repeat split; reflexivity. Qed.
+
+(* the translated functions run: the history of C02_example_history through gen_store / gen_get / gen_clear / gen_is_empty
+   (premise of C02_translated_get_sound satisfied with a hit in each cached mode, and a miss after the displacing store) *)
+Example C02_example_translated_history :
+  let ops := [OStore k_wmin ComputeSize (ex_out 1); OStore k_wmax ComputeSize (ex_out 2); OStore k_wmin PerformLayout (ex_out 3)] in
+  gen_get (gen_run ops) k_wmin ComputeSize = Some (from_outer_size ex_size) /\
+  gen_get (gen_run ops) k_wmin PerformLayout = Some (ex_out 3) /\
+  gen_get (gen_run ops) k_wmax PerformLayout = None /\
+  gen_get (gen_run ops) k_wmin PerformHiddenLayout = None /\
+  gen_is_empty (gen_run ops) = false /\ snd (gen_clear (gen_run ops)) = Cleared /\
+  gen_is_empty (fst (gen_clear (gen_run ops))) = true /\ snd (gen_clear (@gen_new XQ)) = AlreadyEmpty /\
+  gen_is_roughly_equal (Definite (Fin 1)) (Definite (Fin (1 + (1 # 16777216)))) = true /\
+  gen_is_roughly_equal (Definite (Fin 1)) (Definite (Fin (1 + (1 # 8388608)))) = false.
 Proof. vm_compute. repeat split; reflexivity. Qed.
 
 (* refl_key is satisfiable, and its premises are needed: a NaN known dimension or an infinite definite available space
@@ -213,3 +265,10 @@ Print Assumptions C02_hit_persists_F32.
 Print Assumptions C02_slot_lt_9.
 Print Assumptions C02_slot_separates.
 Print Assumptions C02_engine_cache_is_this_cache.
+Print Assumptions C02_translated_is_roughly_equal_is_model.
+Print Assumptions C02_translated_get_is_model.
+Print Assumptions C02_translated_store_is_model.
+Print Assumptions C02_translated_clear_is_model.
+Print Assumptions C02_translated_new_is_empty_is_model.
+Print Assumptions C02_translated_get_sound.
+Print Assumptions C02_translated_clear.
